@@ -1,4 +1,6 @@
 """C05 — SASL negotiation picks the strongest permitted mechanism, never a disabled one."""
+import re
+
 from .. import witness
 from ..build import AnalysisBroken
 
@@ -108,56 +110,116 @@ def r1(prog, run):
                 run.rules[rid]['violations'] += 1
 
 
+ALTS = {
+    'SaslHtMechanism': ['htToken'],
+    'SaslScramMechanism': ['password'], 'SaslDigestMd5Mechanism': ['password'], 'SaslPlainMechanism': ['password'],
+    'SaslXFacebookMechanism': ['facebookAccessToken', 'facebookAppId'],
+    'SaslXWindowsLiveMechanism': ['windowsLiveAccessToken'],
+    'SaslXGoogleMechanism': ['googleAccessToken'],
+    'SaslAnonymousMechanism': [],
+}
+
+
 def r2(prog, run):
-    rid = run.rule('C05.R2', 'a mechanism counts as available only when the credential its client consumes is present (HT additionally: '
-                             'token mechanism equals the offered one and no channel binding)', floor=6)
+    from .. import cfgx
+    rid = run.rule('C05.R2', 'a mechanism counts as available only when every credential its client consumes is present (HT additionally: the token is for exactly '
+                             'this mechanism and there is no channel binding): isMechanismAvailable is evaluated per variant alternative with each credential missing '
+                             '(empty but not null) in turn', floor=10)
     fn = prog.fn('QXmppSaslClient::isMechanismAvailable')
-    lams = prog.lambdas_in(fn, recursive=False)
-    expect = {
-        'SaslHtMechanism': ({'htToken'}, 'token'),
-        'SaslScramMechanism': ({'password'}, 'password'),
-        'SaslXFacebookMechanism': ({'facebookAccessToken', 'facebookAppId'}, 'facebook token and app id'),
-        'SaslXWindowsLiveMechanism': ({'windowsLiveAccessToken'}, 'windows live token'),
-        'SaslXGoogleMechanism': ({'googleAccessToken'}, 'google token'),
-        'SaslAnonymousMechanism': (set(), 'nothing'),
-    }
-    seen = set()
-    for l in lams:
-        if not l.params:
+    lams = [l for l in prog.lambdas_in(fn, recursive=False) if l.params]
+
+    def bodies_for(alt):
+        """the code that decides for this alternative: its visitor arm, or the whole function when it tests the alternative itself"""
+        arms = [l for l in lams if re.search(r'\b%s\b' % alt, l.params[0]['t'])]
+        if arms:
+            return arms
+        if lams:
+            generic = [l for l in lams if 'auto' in l.params[0]['t']]
+            return generic or None
+        return [fn]
+
+    def evaluate(alt, env):
+        """env: {'empty': set of credential fields that are empty, 'token': bool, 'tokmech': bool/None, 'cb_none': bool/None} -> set of return values"""
+        def custom(f, nid, st):
+            n = f.nodes[nid]
+            if n['k'] == 'call':
+                sy = f.sym(n) or {}
+                nm = sy.get('name')
+                if nm in ('isEmpty', 'isNull') and n.get('obj') is not None:
+                    o = f.nodes[f.skip(n['obj'])]
+                    if o['k'] == 'mem' and o.get('f', '').startswith(NS + 'Credentials::'):
+                        fld = o['f'].split('::')[-1]
+                        return ((fld in env['empty']) if nm == 'isEmpty' else False,)
+                if nm in ('operator bool', 'has_value') and n.get('obj') is not None:
+                    o = f.nodes[f.skip(n['obj'])]
+                    if o['k'] == 'mem' and o.get('f', '').endswith('Credentials::htToken'):
+                        return (env['token'],)
+                if nm == 'holds_alternative':
+                    return (re.search(r'\b%s\b' % alt, (sy.get('targs') or '').split(',')[0]) is not None,)
+                if nm == 'get_if':
+                    return (re.search(r'\b%s\b' % alt, (sy.get('targs') or '').split(',')[0]) is not None,)
+            if n['k'] == 'mem' and n.get('f', '').endswith('Credentials::htToken') and (n.get('t') or '').startswith('std::optional'):
+                par = f.parents().get(nid)
+                if par is not None and f.nodes[par]['k'] in ('icast', 'cast'):
+                    return (env['token'],)
+            bo = f.binop(nid)
+            if bo and bo[0] in ('==', '!='):
+                t = f.fmt(nid, inline=True)
+                if ('HtToken::mechanism' in t or '.mechanism' in t) and 'htToken' in t and env.get('tokmech') is not None:
+                    return ((bo[0] == '==') == env['tokmech'],)
+                if 'channelBindingType' in t and 'SaslHtMechanism::None' in t and env.get('cb_none') is not None:
+                    return ((bo[0] == '==') == env['cb_none'],)
+            return None
+        vals = set()
+        bodies = bodies_for(alt)
+        if bodies is None:
+            return None
+        for body in bodies:
+            ev = cfgx.Evaluator(body, {}, custom=custom)
+
+            def tr(f, nid, st, ev=ev):
+                m = f.nodes[nid]
+                if m['k'] == 'ret' and 'e' in m:
+                    vals.add(ev.ev(m['e'], None))
+                return None
+            cfgx.explore(body, (), tr, lambda f, c, st, ev=ev: ev.ev(c, None))
+        return vals
+    for alt, need in ALTS.items():
+        if not need:
+            run.instance(rid)
+            vals = evaluate(alt, {'empty': set(sum(ALTS.values(), [])), 'token': False})
+            if vals is None:
+                raise AnalysisBroken('C05.R2: no code decides availability for %s' % alt)
+            if vals == {True}:
+                run.ok(rid, fn.loc(), '%s needs no credential' % alt)
+            else:
+                run.violation(rid, 'isMechanismAvailable#%s#credentials' % alt, fn.loc(), '%s is not always available (%s)' % (alt, sorted(map(str, vals))))
             continue
-        pt = l.params[0]['t']
-        fields = {n['name'] for n in l.nodes if n['k'] == 'mem' and n.get('f', '').startswith(NS + 'Credentials::')}
-        for key, (want, what) in expect.items():
-            if key in pt:
-                seen.add(key)
-                run.instance(rid)
-                rets = [l.fmt(n['e']) for _, n in l.returns() if 'e' in n]
-                if key == 'SaslScramMechanism' and not ('SaslDigestMd5Mechanism' in pt and 'SaslPlainMechanism' in pt):
-                    run.info(rid, l.loc(), 'password arm no longer shared by SCRAM/DIGEST/PLAIN: %s' % pt)
-                if fields != want:
-                    run.violation(rid, 'isMechanismAvailable#%s#credentials' % key, l.loc(),
-                                  '%s available depends on %s, expected %s' % (key, sorted(fields), sorted(want)))
-                elif key == 'SaslAnonymousMechanism':
-                    run.ok(rid, l.loc(), 'ANONYMOUS needs no credential')
-                elif key == 'SaslHtMechanism':
-                    r = ' '.join(rets)
-                    ok = ('HtToken::mechanism' in r or '.mechanism ==' in r) and 'channelBindingType' in r and 'SaslHtMechanism::None' in r \
-                        and r.count('&&') >= 2 and '||' not in r
-                    if ok:
-                        run.ok(rid, l.loc(), 'HT: token present && token.mechanism == offered && channel binding None')
-                    else:
-                        run.violation(rid, 'isMechanismAvailable#SaslHtMechanism#conditions', l.loc(), 'HT availability weakened: %s' % r[:160])
-                else:
-                    r = ' '.join(rets)
-                    if '||' in r or 'true' in r.split('return')[-1:][0] and 'isEmpty' not in r:
-                        run.violation(rid, 'isMechanismAvailable#%s#weakened' % key, l.loc(), 'availability of %s weakened: %s' % (key, r[:120]))
-                    elif r.count('isEmpty') != len(want) or r.count('!') < len(want):
-                        run.violation(rid, 'isMechanismAvailable#%s#shape' % key, l.loc(), 'availability of %s is not "credential non-empty": %s' % (key, r[:120]))
-                    else:
-                        run.ok(rid, l.loc(), '%s needs %s' % (key, what))
-    missing = set(expect) - seen
-    if missing:
-        raise AnalysisBroken('C05.R2: availability arms not found for %s' % sorted(missing))
+        for missing in need:
+            run.instance(rid)
+            env = {'empty': {missing}, 'token': missing != 'htToken', 'tokmech': True, 'cb_none': True}
+            vals = evaluate(alt, env)
+            if vals is None:
+                raise AnalysisBroken('C05.R2: no code decides availability for %s' % alt)
+            if vals == {False}:
+                run.ok(rid, fn.loc(), '%s: unavailable when %s is missing' % (alt, missing))
+            else:
+                run.violation(rid, 'isMechanismAvailable#%s#%s' % (alt, 'weakened' if True in vals else 'shape'), fn.loc(),
+                              '%s is reported available although %s is empty (evaluates to %s): a mechanism without usable credentials can be chosen, or prevents the mismatch '
+                              'error' % (alt, missing, sorted(map(str, vals))))
+        # with everything present it must be available (the rule must not pass because nothing ever returns true)
+        vals = evaluate(alt, {'empty': set(), 'token': True, 'tokmech': True, 'cb_none': True})
+        if vals is not None and True not in vals:
+            raise AnalysisBroken('C05.R2: %s is never available even with all credentials present (model does not fit the code)' % alt)
+    # HT: the token must be for exactly this mechanism, and without channel binding
+    for label, env in (('the token is for another mechanism', {'empty': set(), 'token': True, 'tokmech': False, 'cb_none': True}),
+                       ('the offered mechanism uses channel binding', {'empty': set(), 'token': True, 'tokmech': True, 'cb_none': False})):
+        run.instance(rid)
+        vals = evaluate('SaslHtMechanism', env)
+        if vals == {False}:
+            run.ok(rid, fn.loc(), 'HT: unavailable when %s' % label)
+        else:
+            run.violation(rid, 'isMechanismAvailable#SaslHtMechanism#conditions', fn.loc(), 'HT availability weakened: available although %s (%s)' % (label, sorted(map(str, vals or []))))
 
 
 def _stage_calls(fn):
@@ -185,7 +247,11 @@ def r3(prog, run):
     stages = _stage_calls(fn)
     site = fn.loc()
     if len(stages) < 4:
-        raise AnalysisBroken('C05.R3: clang recovery kept only %d pipeline stages in chooseMechanism' % len(stages))
+        mvar = _r3_loop_form(prog, run, rid, fn)
+        if mvar is None:
+            raise AnalysisBroken('C05.R3: chooseMechanism is neither a views pipeline (%d stages kept by clang) nor a filtering loop' % len(stages))
+        _r3_returns(prog, run, rid, fn, site)
+        return
     # (a) disabled filter
     run.instance(rid)
     is_enabled = None
@@ -254,7 +320,10 @@ def r3(prog, run):
         run.violation(rid, 'chooseMechanism#vector-source', site, 'candidate vector initialised from %s, not from the filtered view' % fn.fmt(mech['init'], inline=False)[:80])
     else:
         run.ok(rid, site, 'candidate vector declared from the filtered view (initialiser not visible to clang 14: assumed)', nontrivial=False)
-    mvar = mech['var']
+    _r3_returns(prog, run, rid, fn, site)
+
+
+def _r3_returns(prog, run, rid, fn, site):
     # (e) returns
     rets = list(fn.returns())
     if len(rets) != 3:
@@ -289,6 +358,73 @@ def r3(prog, run):
             run.violation(rid, 'chooseMechanism#unknown-return', fn.loc(i), 'unexpected return value %s' % txt[:100])
 
 
+def _r3_loop_form(prog, run, rid, fn):
+    """hand-written form of the candidate filter: a loop over the offered names that pushes into a local vector; decided by abstract evaluation"""
+    from .. import cfgx
+    pushes = []
+    for i, n in fn.calls():
+        sy = fn.sym(n) or {}
+        if sy.get('name') in ('push_back', 'emplace_back', 'append', 'operator<<') and n.get('obj') is not None:
+            o = fn.nodes[fn.skip(n['obj'])]
+            if o['k'] == 'var' and o.get('vk') == 'local' and 'SaslMechanism' in (o.get('t') or ''):
+                pushes.append((i, o['decl']))
+    loops = [b for b in fn.blocks.values() if b.get('term', {}).get('k') == 'rangefor' and fn.nodes[fn.skip(b['term']['range'])].get('pidx') == 1]
+    if not pushes or not loops:
+        return None
+    site = fn.loc(pushes[0][0])
+
+    def mk(disabled, parsed, available):
+        def custom(f, nid, st):
+            n = f.nodes[nid]
+            if n['k'] != 'call':
+                return None
+            sy = f.sym(n) or {}
+            nm = sy.get('name')
+            cn = f.cname(n)
+            if nm == 'contains' and n.get('obj') is not None and 'QXmppConfiguration::disabledSaslMechanisms' in f.fmt(n['obj'], inline=True):
+                return (disabled,)
+            if nm in ('has_value', 'operator bool') and n.get('obj') is not None and 'SaslMechanism::fromString' in f.fmt(n['obj'], inline=True):
+                return (parsed,)
+            if cn == 'QXmppSaslClient::isMechanismAvailable':
+                return (available,)
+            return None
+        ev = cfgx.Evaluator(fn, {}, custom=custom)
+        return lambda f, c, st: ev.ev(c, st)
+    cases = (('the offered name is disabled by the configuration', mk(True, True, True), 'disabled-filter',
+              'the offered list is not filtered by the configured disabled mechanisms as first stage'),
+             ('the offered name is not a known mechanism', mk(False, False, True), 'parse-stage', 'names are not parsed with SaslMechanism::fromString and unknown ones dropped'),
+             ('no credentials are available for the mechanism', mk(False, True, False), 'availability-filter', 'mechanisms are not filtered by credential availability'))
+    for label, evc, key, msg in cases:
+        run.instance(rid)
+        res = cfgx.sink_reachability(fn, evc, [i for i, _ in pushes])
+        if any(res[i] is not None for i, _ in pushes):
+            run.violation(rid, 'chooseMechanism#' + key, site, msg + ' (a candidate is added although %s)' % label)
+        else:
+            run.ok(rid, site, 'loop form: no candidate is added when %s' % label)
+    res = cfgx.sink_reachability(fn, mk(False, True, True), [i for i, _ in pushes])
+    if not any(res[i] is not None for i, _ in pushes):
+        raise AnalysisBroken('C05.R3: the filtering loop never adds a candidate (model does not fit the code)')
+    run.instance(rid)
+    run.ok(rid, site, 'candidate vector filled by the filtering loop', nontrivial=False)
+    return pushes[0][1]
+
+
+def _mentions_mismatch(prog, f, expr, depth=0):
+    """the returned value is built with AuthenticationError::MechanismMismatch, directly or by a helper that only builds that error"""
+    if 'AuthenticationError::MechanismMismatch' in f.fmt(expr):
+        return True
+    if depth >= 2:
+        return False
+    for j in f.walk(expr):
+        m = f.nodes[j]
+        if m['k'] == 'call':
+            for g in prog.callee_fns(f, m):
+                rets = [r for _, r in g.returns() if 'e' in r]
+                if rets and all(_mentions_mismatch(prog, g, r['e'], depth + 1) for r in rets):
+                    return True
+    return False
+
+
 def r4(prog, run):
     rid = run.rule('C05.R4', 'nothing is sent when no mechanism qualifies: authenticate() returns on result.error before any sendData; '
                              'initSaslAuthentication reports MechanismMismatch before creating a client', floor=3)
@@ -307,7 +443,7 @@ def r4(prog, run):
     init = prog.fn(NS + 'initSaslAuthentication')
     run.instance(rid)
     creates = [i for i, n in init.calls('QXmppSaslClient::create')]
-    mism = [i for i, n in init.returns() if 'AuthenticationError::MechanismMismatch' in init.fmt(n['e'])]
+    mism = [i for i, n in init.returns() if 'e' in n and _mentions_mismatch(prog, init, n['e'])]
     ok = bool(creates) and bool(mism)
     for c in creates:
         atoms = [(init.fmt(x, inline=False), p) for x, p in init.atomic_assertions_at(c)]
@@ -354,6 +490,27 @@ def r5(prog, run):
                       'token mechanisms with channel binding are not filtered out before requesting a FAST token')
 
 
+def _exact_lookup(prog, f, call):
+    """call is helper(table, p0) where the helper finds its string argument in the table by equality (std::find / == in a loop) and nothing else"""
+    if not any(f.nodes[f.skip(a)].get('pidx') == 0 and f.nodes[f.skip(a)]['k'] == 'var' for a in call.get('args', [])):
+        return False
+    for g in prog.callee_fns(f, call):
+        if g.entry is None:
+            continue
+        names = {(g.sym(n) or {}).get('name') for _, n in g.calls()}
+        if names & {'startsWith', 'endsWith', 'contains', 'indexOf', 'compare', 'left', 'mid'}:
+            return False
+        str_params = [k for k, p_ in enumerate(g.params) if 'QStringView' in p_['t'] or 'QString' in p_['t']]
+        for _, n in g.calls():
+            if g.cname(n) in ('std::find', 'std::ranges::find') and n.get('args') and g.nodes[g.skip(n['args'][-1])].get('pidx') in str_params:
+                return True
+        for j in range(len(g.nodes)):
+            bo = g.binop(j)
+            if bo and bo[0] == '==' and any(g.nodes[g.skip(x)].get('pidx') in str_params and g.nodes[g.skip(x)]['k'] == 'var' for x in bo[1:]):
+                return True
+    return False
+
+
 def r6(prog, run):
     rid = run.rule('C05.R6', 'mechanism names are parsed exactly: a parser returns a mechanism only on a path where what is left of the offered name equals a '
                              'literal (or it delegates the unchanged name to another checked parser), so a name with a foreign suffix (e.g. SCRAM-SHA-1-PLUS) '
@@ -381,14 +538,21 @@ def r6(prog, run):
             exact = False
             for c, pol in f.atomic_assertions_at(i):
                 bo = f.binop(f.skip(c))
-                if pol is True and bo and bo[0] == '==':
+                if isinstance(pol, bool) and bo and bo[0] in ('==', '!=') and (pol == (bo[0] == '==')):
                     sides = [f.nodes[f.skip(bo[1])], f.nodes[f.skip(bo[2])]]
-                    if any(x['k'] == 'var' and x.get('pidx') == 0 for x in sides) and any(x['k'] == 'str' or x['k'] == 'index' or (x['k'] == 'call' and f.cname(x).endswith('::at')) for x in sides):
+                    # whole-string equality of the (remaining) offered name with anything: a literal, a table element, a structured binding
+                    if any(x['k'] == 'var' and x.get('pidx') == 0 for x in sides):
                         exact = True
-                if pol is False and bo and bo[0] == '!=':
-                    sides = [f.nodes[f.skip(bo[1])], f.nodes[f.skip(bo[2])]]
-                    if any(x['k'] == 'var' and x.get('pidx') == 0 for x in sides) and any(x['k'] == 'str' for x in sides):
-                        exact = True
+                if pol is True:
+                    # an optional produced by an exact table look-up of the offered name
+                    for j in f.walk(c):
+                        m = f.nodes[j]
+                        d = None
+                        if m['k'] == 'var' and m.get('vk') == 'local':
+                            d = f.single_def(m['decl'])
+                        cand = f.nodes[f.skip(d)] if d is not None else m
+                        if cand['k'] == 'call' and _exact_lookup(prog, f, cand):
+                            exact = True
             if exact:
                 run.ok(rid, f.loc(i), '%s returns %s only for an exactly matching name' % (f.qname.split('::')[-2], txt[-50:]))
             else:
